@@ -31,13 +31,14 @@ type World struct {
 	ProbeVals []interface{} // scalar probes for Contains/IndexOf/KeyOf
 	ProbeKeys []string
 	UseShape  bool // include private len/cap/aliasing in the key
+	Tag       string // scenario-specific marker that is part of the state key (e.g. the construction route)
 }
 
 func NewWorld(nregs int) *World {
 	return &World{Regs: make([]interface{}, nregs), real: map[interface{}]interface{}{}, UseShape: true}
 }
 
-func (w *World) Bind(m, r interface{}) { w.real[m] = r }
+func (w *World) Bind(m, r interface{})          { w.real[m] = r }
 func (w *World) Real(m interface{}) interface{} { return w.real[m] }
 func (w *World) RL(m *L) at.List {
 	r, _ := w.real[m].(at.List)
@@ -523,6 +524,7 @@ func sortedKeys(m map[string]interface{}) []string {
 // backing arrays with element offsets.
 func (w *World) Key() string {
 	var sb strings.Builder
+	sb.WriteString(w.Tag)
 	ids := map[interface{}]int{}
 	type span struct {
 		lo, hi uintptr
@@ -566,6 +568,11 @@ func (w *World) Key() string {
 								}
 							}
 							spans = append(spans, span{lo, hi, id})
+						}
+						if sp.Cap > sp.Len {
+							if spare, ok := peek.Spare(r); ok {
+								sb.WriteString("!" + spare)
+							}
 						}
 						sb.WriteString(">")
 					}
